@@ -3,24 +3,26 @@ import refs_cases
 
 ID = "C05"
 PROPERTIES_FILE = "Properties/C05.v"
-COQ_TARGETS = ["Properties/C05.vo", "Refs/Cases.vo", "Refs/RefProofs.vo", "Refs/RefStep.vo", "Refs/LifeProofs.vo", "Refs/LifeStep.vo", "Refs/FenceProofs.vo"]
+COQ_TARGETS = ["Properties/C05.vo", "Refs/Cases.vo", "Refs/RefProofs.vo", "Refs/RefStep.vo", "Refs/LifeProofs.vo", "Refs/LifeStep.vo", "Refs/ErrPaths.vo", "Refs/FenceProofs.vo"]
 LEVEL = "proof"
 TECHNIQUE = ("Coq theorems (all backends, all states) over a hand-written sequential Gallina model of fidRef reference counting, the DecRef "
              "cascade, the fid tables and connState.stop; model tied to the code by a differential against the real Server.Handle driven "
              "over net.Pipe with a counting, failure-injecting, path-addressed backend; lifecycle predicate evaluated on the observed call log")
-LEVEL_TEXT = ("Proved in Coq for every backend (every success/failure choice of every backend call): the reference-count invariant "
-              "refs = #fid-table entries + #transient holders + #live children + #live xattr borrowers holds initially and is preserved by every "
-              "reference-count primitive (LookupFID, the deferred DecRef with its whole cascade, InsertFID over a bound fid, DeleteFID, new "
-              "fidRefs, doWalk's hand-over, renameChildTo's re-parenting) and by the complete handlers of 11 of the 20 modelled request kinds incl. "
-              "Tclunk and the disconnect; walkOne closes the File it obtained on every error path. PARTIAL: the composition through Tattach/Twalk/"
-              "Tlcreate/Tremove/Tlink/Tunlinkat/Trename(at)/Txattrwalk and hence closed-exactly-once / no-use-after-close / disconnect over whole "
-              "histories are NOT derived in Coq: every run evaluates them on the backend call log observed from the real server (failure injected "
-              "at every backend-call index of the corpus, connection cut after every byte of short sessions, fid replacement, xattr fids, "
-              "create-rebinding), checks Handle's return and the goroutine count, and compares replies, call logs and the path tree with the model.")
-LEVEL_NOTE = ("Sequential model: requests are handled one at a time (in-flight interleavings are the subject of C06/C07/C16); Handle returning / "
-              "no goroutine left are observed on the real code only; out-of-fuel outcomes of the cascade are excluded by hypothesis (fuel-suffices "
-              "lemma = acyclic parent chains, assumption B2, not proved). The model is tied to the Go code by the differential only. The 817d440 "
-              "deadlock (DecRef under childMu) needs a disconnect inside a Renamed callback and is not reachable by this sequential harness.")
+LEVEL_TEXT = ("Proved in Coq by induction over ALL request histories from the initial state, for EVERY backend (every success/failure choice "
+              "of every backend call): C05_inv (refs = #fid-table entries + #transient holders + #live children + #live xattr borrowers; the DecRef "
+              "cascade never runs out of fuel - no acyclicity needed), File ownership (every returned handle owned by exactly one fidRef, xattr fidRefs "
+              "borrow), C05_closed_once, C05_closed_iff_unreferenced, C05_error_paths for Twalk/Twalkgetattr (every failing component, every reason), "
+              "C05_no_use_after_close for every File method except Renamed (partial), C05_disconnect under an explicit ordering hypothesis on parent "
+              "links (partial: assumption B2 is not discharged). Every run re-checks the proofs, replays generated histories on the real server "
+              "(failure injected at every backend-call index of the corpus, connection cut after every byte of short sessions, fid replacement, xattr "
+              "fids, create-rebinding) plus three gated concurrent scenarios (rename while a child's last DecRef is parked in Close; rename whose "
+              "Renamed callback overlaps a disconnect; see C08 for unlink vs walk), evaluates the lifecycle predicate on the observed backend call "
+              "log, Handle's return and the goroutine count, and compares replies, call logs and the path tree with the model.")
+LEVEL_NOTE = ("Sequential model: requests are handled one at a time (in-flight interleavings are the subject of C06/C07/C16; three specific interleavings "
+              "are exercised by gated scenarios and judged on the observed log only). Partial in Coq: Renamed notifications are outside "
+              "C05_no_use_after_close (needs the tree invariant); C05_disconnect assumes parent ids smaller than child ids for live fidRefs (true "
+              "without renames; B2 + tree invariant needed in general); C05_error_paths for Tattach is not written out. Handle returning / no "
+              "goroutine left are observed on the real code only. The model is tied to the Go code by the differential only.")
 DESIGN_REF = "6/C05"
 ASSUMPTIONS = [
     "requests of all connections are processed one at a time (sequential model); Go map iteration order only permutes Renamed/Close runs",
